@@ -40,7 +40,7 @@ struct Options {
   int pb_bound = 2;
   long max_execs = 1000000;
   std::string out;
-  int sw = -1, tm = -1, depth = 3;
+  int sw = -1, tm = -1, depth = 3, spurious = 0;
   long max_steps = 200000;
   int jobs = 1;
   int timeout_ms = 20000;
@@ -144,6 +144,7 @@ ExecResult run_one(const Entry& e, const Params& p, const Options& o, unsigned l
     g_cfg.strategy = st_keep.c_str();
     if (o.sw >= 0) g_cfg.switch_permille = o.sw;
     if (o.tm >= 0) g_cfg.time_permille = o.tm;
+    g_cfg.spurious_permille = o.spurious;
     if (strategy == "pct") g_cfg.pct_depth = o.depth;
     g_cfg.max_steps = o.max_steps;
     g_cfg.script = g_script.data();
@@ -321,6 +322,7 @@ int main(int argc, char** argv) {
     else if (a == "--switch") o.sw = atoi(next().c_str());
     else if (a == "--time") o.tm = atoi(next().c_str());
     else if (a == "--depth") o.depth = atoi(next().c_str());
+    else if (a == "--spurious") o.spurious = atoi(next().c_str());
     else if (a == "--max-steps") o.max_steps = atol(next().c_str());
     else if (a == "-j") o.jobs = atoi(next().c_str());
     else if (a == "--timeout-ms") o.timeout_ms = atoi(next().c_str());
